@@ -887,6 +887,10 @@ func Run(r *vk.Run) {
 		i := i
 		r.Guard(map[string]any{"apply_window_case": i}, func() { runFullApplyWindow(r, keys, i) })
 	}
+	for i := 0; i < r.N(12, 48); i++ {
+		i := i
+		r.Guard(map[string]any{"scan_held_case": i}, func() { runFullScanHeld(r, keys, i) })
+	}
 }
 
 // waitD waits (generously) until the reported DA-included height equals want. It returns false if that does not
